@@ -150,8 +150,16 @@ class C20:
         CTX.missing = self.missing
         # some providers do not report whether an output is spent when asked for a single transaction or a block
         CTX.spent_unknown = {p_ for p_ in range(self.k) if ch.coin('spent_unknown', 0.3)}
-        P.write_providers_json(_STATE['datadir'], [{'pid': p, 'priority': self.prios[p]} for p in range(self.k)],
-                               self.network)
+        # layer B: the library's own Esplora clients over a fake HTTP transport instead of stub client classes
+        self.layer = world.arm_params.get('layer', 'stub')
+        if self.layer == 'http':
+            from simkit import httpsim
+            httpsim.install()
+            httpsim.HTTP.__init__()
+            self.http_clients = [ch.pick('client', ['blockstream', 'mempool']) for _ in range(self.k)]
+            self.missing = {}
+            CTX.missing = {}
+        self.write_providers([(p, self.prios[p]) for p in range(self.k)])
         self.mode = 'faulty'       # 'calm' (all ok) | 'down' (all raise) | 'faulty'
         self.assign = None         # exhaustive slice: {pid: kind} for one target method
         self.assign_method = None
@@ -170,10 +178,22 @@ class C20:
         self.services = []
         self.last_ok = {}          # (method, args) -> result snapshot for fidelity replay
         self.lied = any(self.lags) or any(self.nomempool)
+        if self.layer == 'http':
+            # the real clients have conventions of their own (confirmations, paging, order inside a block, unknown spent
+            # state): comparisons with the chain's truth are off, everything is judged against what the clients returned
+            self.lied = True
         self.populate()
         world.log.ev('config', network=self.network, k=self.k, prios=self.prios, minp=self.min_providers,
                      maxp=self.max_providers, maxe=self.max_errors, ignp=self.ignore_priority,
                      frate=self.fault_rate, fkinds=self.fault_kinds, lags=self.lags)
+
+    def write_providers(self, prios):
+        if self.layer == 'http':
+            from simkit import httpsim
+            httpsim.write_providers_json(_STATE['datadir'], [{'pid': p, 'priority': pr, 'provider': self.http_clients[p]}
+                                                              for p, pr in prios], self.network)
+        else:
+            P.write_providers_json(_STATE['datadir'], [{'pid': p, 'priority': pr} for p, pr in prios], self.network)
 
     # -- chain population -----------------------------------------------------------------------------
     def populate(self):
@@ -288,6 +308,16 @@ class C20:
         """Every provider return value that is an answer becomes a set of facts."""
         v = rec['value']
         m = rec['method']
+        if rec.get('survived_fault'):
+            self.malformed_fired = True     # layer B: a corrupted body got through the client as an answer
+            self.lied = True
+            if rec['survived_fault'] in ('status_500', 'status_429', 'status_404', 'status_503_html', 'timeout',
+                                         'conn_error'):
+                # a provider whose HTTP exchange failed outright has not answered: the client has to raise
+                self.w.violation('http_failure_passed_on_as_answer',
+                                 {'method': m, 'flavor': rec['survived_fault'], 'client': rec.get('client')},
+                                 '%s.%s returned %s although a request of the call failed with %s' %
+                                 (rec.get('client'), m, short(v), rec['survived_fault']))
         if rec['exc'] is not None or rec['kind'] not in ANSWER_KINDS:
             return
         if m == 'blockcount':
@@ -716,8 +746,35 @@ class C20:
             if not found and not self.poisoned():
                 w.violation('cache_infidelity', sig, 'cached transaction %s differs from every stored answer' %
                             str(s.get('txid'))[:16])
+        if getattr(srv, 'complete', False) and all(is_tx(t) for t in ret) and \
+                len({t.txid for t in ret}) == len(ret):      # (a list with repeats is judged below)
+            # a complete history: the service derives the spent state of the address's own outputs from the inputs of the
+            # listed transactions (transaction_update_spents) and stores that.  Recomputed here from the listed inputs;
+            # what agrees becomes a stored fact, anything else was made up.
+            spends = {(i.prev_txid.hex(), i.output_n_int) for t in ret for i in t.inputs}
+            for t in ret:
+                for o in t.outputs:
+                    if o.address != address:
+                        continue
+                    derived = (t.txid, o.output_n) in spends
+                    if bool(o.spent) != derived and not self.poisoned():
+                        w.violation('fabricated_spent_flag', sig,
+                                    'complete history of %s: output %s:%d marked spent=%r, the listed inputs say %r' %
+                                    (address, t.txid[:16], o.output_n, o.spent, derived))
+                    self.facts_spent.setdefault((t.txid, o.output_n), set()).add(derived)
+                    w.probe('spent_flag_derived_from_complete_history')
         ids = [t.txid for t in ret if is_tx(t)]
         self.check_cache_part_after(srv, address, kw.get('after_txid'), ids[:n_cache])
+        if len(set(ids)) != len(ids) and not self.poisoned() and n_cache and te and self.layer == 'http':
+            # the real clients can return transactions at or before the `after_txid` they were asked to continue from
+            # (they stop paging on their own terms): the overlap is then in the provider's answer, not the service's doing
+            pos = {}
+            for c in self.chain.txs.values():
+                pos[c.txid] = (c.height if c.height is not None else 10 ** 9, c.index or 0, c.arrival)
+            last_cached = ids[n_cache - 1]
+            if any(i in pos and last_cached in pos and pos[i] <= pos[last_cached] for i in ids[n_cache:]):
+                w.probe('provider_ignored_after_txid')
+                ids = []
         if len(set(ids)) != len(ids) and not self.poisoned():
             dups = {i for i in ids if ids.count(i) > 1}
             heights = [t.block_height for t in ret if is_tx(t)]
@@ -1311,8 +1368,7 @@ class C20:
         slice_path = os.path.join(self.w.scratch, 'slice.sqlite')
         try:
             for order in itertools.permutations(range(k)):
-                P.write_providers_json(_STATE['datadir'], [{'pid': p, 'priority': 10 * (k - order.index(p))}
-                                                           for p in range(k)], self.network)
+                self.write_providers([(p, 10 * (k - order.index(p))) for p in range(k)])
                 for assign in itertools.product(outcomes, repeat=k):
                     if os.path.exists(slice_path):
                         os.remove(slice_path)
